@@ -1,10 +1,13 @@
 // C14 — Primary and unique keys are enforced exactly.
 //
 // extract: the branch structure of columnsMatch, the lookup order of GetByCols / Get, the shape of
-//          checkUniqueConstraints / hasNullForAnyCols and the call order of tableEditor.Insert/Update.
+//          checkUniqueConstraints / hasNullForAnyCols, the call order of tableEditor.Insert/Update, and
+//          how indexColsForTableEditor finds the columns of the unique indexes (by name, never through
+//          the ordinals stored in the index expressions).
 // run:     key-centred statement histories on the real engine (composite keys with colliding
 //          printed forms (the repaired finding pk_print_collision), case variants under utf8mb4_0900_ai_ci, prefix indexes over multi-byte
-//          text, NULLs in unique indexes, key updates); after each statement the outcome class and
+//          text, NULLs in unique indexes, key updates; ddl.go: the same interleaved with schema changes
+//          that move columns under the unique indexes); after each statement the outcome class and
 //          a sorted table dump. Model-free oracles: no two stored rows collide on a key under the
 //          columns' collations / character prefixes; a rejected plain INSERT really collides.
 package main
@@ -200,6 +203,44 @@ func extract(a hx.ExtractArgs) error {
 		}
 		return true
 	})
+	// indexColsForTableEditor: where every new tableEditor gets the column positions of the unique
+	// indexes from. The model (Gms/Model/MemTableDdl.lean) resolves the index columns BY NAME against
+	// the current schema (columnIndexes -> Schema.IndexOf) and never reads the field ordinals stored in
+	// the index expressions (GetField.Index()), which ADD COLUMN ... FIRST/AFTER and RENAME TABLE
+	// leave stale.
+	tdSrc, err := hx.ParseSrc(a.Repo, "memory/table_data.go")
+	if err != nil {
+		return err
+	}
+	icFn, err := tdSrc.Func("TableData", "indexColsForTableEditor")
+	if err != nil {
+		return err
+	}
+	var icCalls []string
+	ordinalReads := 0
+	ast.Inspect(icFn.Body, func(n ast.Node) bool {
+		ce, ok := n.(*ast.CallExpr)
+		if !ok {
+			return true
+		}
+		if se, ok := ce.Fun.(*ast.SelectorExpr); ok {
+			switch se.Sel.Name {
+			case "IsUnique", "Name", "columnIndexes", "PrefixLengths", "IndexOf":
+				icCalls = append(icCalls, se.Sel.Name)
+			case "Index":
+				ordinalReads++
+			}
+		}
+		return true
+	})
+	if len(icCalls) == 0 {
+		return fmt.Errorf("indexColsForTableEditor: none of the expected calls found")
+	}
+	lf.DefStringList("indexColsForTableEditor", icCalls)
+	lf.DefNat("indexColsOrdinalReads", uint64(ordinalReads))
+	if err := seq(tdSrc, "TableData", "columnIndexes", "columnIndexes", "schema.IndexOf", "errColumnNotFound.New"); err != nil {
+		return err
+	}
 	lf.DefStringList("hasNullConds", conds)
 	lf.DefStringList("hasNullReturns", rets)
 	return lf.Write(a.Out)
@@ -278,7 +319,8 @@ func run(a hx.RunArgs) error {
 	defer out.Close()
 	out.Rule = "key-centred histories of 2-9 INSERT / IGNORE / REPLACE / ON DUPLICATE KEY UPDATE / UPDATE / DELETE statements over schemas with single or composite primary keys, " +
 		"0-1 unique index (optional prefix length), INT and VARCHAR key columns (utf8mb4_0900_bin or utf8mb4_0900_ai_ci), NULLs, multi-byte text in prefix-indexed columns; witnesses first, " +
-		"then a sweep over two-column integer keys with equal printed forms; a history is non-trivial when some statement after the first hit a duplicate (error, skip, replace, update) or moved a key"
+		"then a sweep over two-column integer keys with equal printed forms, then histories that interleave the DML with up to three schema changes which move columns under the unique indexes " +
+		"(ADD COLUMN FIRST / AFTER c / last, DROP COLUMN of a non-key column, RENAME COLUMN, RENAME TABLE; non-trivial when a statement after a schema change hit a duplicate or changed the table); a history is non-trivial when some statement after the first hit a duplicate (error, skip, replace, update) or moved a key"
 	rn := m.NewRunner()
 	g := &m.Gen{R: hx.NewRand(a.Seed).Fork(), P: m.Profile{CIChance: [2]int{2, 5}, StrChance: [2]int{2, 5}, KeylessChance: [2]int{1, 12},
 		MaxStmts: 9, KeyFocus: true, Multibyte: true}}
@@ -383,6 +425,8 @@ func run(a hx.RunArgs) error {
 		out.Stat("sweep:print-collision:" + kind)
 		one(c3, m.Fixed(h))
 	}
+	// histories with schema changes between the statements (ddl.go)
+	runDDL(a, out, rn)
 	n := 1500
 	if a.Thorough {
 		n = 120000
